@@ -32,11 +32,11 @@ Proof.
 Qed.
 
 Lemma getd_links w k t : links (us (getd w k t)) = links_of w k.
-Proof. unfold getd, links_of. destruct (get w k); reflexivity. Qed.
+Proof. unfold getd, links_of. destruct (get w k); [reflexivity|]. cbn [us]. unfold init. apply init5_links. Qed.
 
 Lemma getd_below w k t : WInv w -> msgs_below (getd w k t).
 Proof.
-  intros I. unfold getd. destruct (get w k) as [u|] eqn:G; [now apply (I k)|]. intros r [].
+  intros I. unfold getd. destruct (get w k) as [u|] eqn:G; [now apply (I k)|]. unfold msgs_below. cbn [umsgs]. intros r [].
 Qed.
 
 Lemma WInv_put w k u : WInv w -> msgs_below u -> WInv (put w k u).
@@ -209,7 +209,7 @@ Proof. reflexivity. Qed.
 
 Lemma getd_fresh w k t : WFresh w -> fresh_store (us (getd w k t)).
 Proof.
-  intros F. unfold getd. destruct (get w k) as [u|] eqn:G; [now apply (F k)|]. apply fresh_init5.
+  intros F. unfold getd. destruct (get w k) as [u|] eqn:G; [now apply (F k)|]. cbn [us]. unfold init. apply fresh_init5.
 Qed.
 
 Lemma deliver_message_fresh w folder r p t :
